@@ -208,6 +208,27 @@ bool Instance::setup_environment(unsigned int flags) {
     env->done &= successor_script.size() == 0;
     env->execdata = execdata;
     env->tce = tce;
+    env->allow_disabled_opcodes = allow_disabled_opcodes;
+
+    if (env->operational && sigver == SigVersion::TAPSCRIPT) {
+        // BIP342: a tapscript containing an OP_SUCCESSx opcode is valid unconditionally and is never
+        // executed; stepping it with the legacy meaning of those opcodes would show a different result.
+        // (Opcodes re-enabled with --allow-disabled-opcodes are executed as what their names say.)
+        CScript::const_iterator it = script.begin();
+        opcodetype opcode;
+        while (it < script.end() && script.GetOp(it, opcode)) {
+            const bool reenabled = allow_disabled_opcodes && (
+                opcode == OP_CAT || opcode == OP_SUBSTR || opcode == OP_LEFT || opcode == OP_RIGHT ||
+                opcode == OP_INVERT || opcode == OP_AND || opcode == OP_OR || opcode == OP_XOR ||
+                opcode == OP_2MUL || opcode == OP_2DIV || opcode == OP_MUL || opcode == OP_DIV ||
+                opcode == OP_MOD || opcode == OP_LSHIFT || opcode == OP_RSHIFT);
+            if (IsOpSuccess(opcode) && !reenabled) {
+                error = SCRIPT_ERR_DISCOURAGE_OP_SUCCESS;
+                env->operational = false;
+                break;
+            }
+        }
+    }
 
     return env->operational;
 }
